@@ -311,7 +311,13 @@ KIND = {
 }
 
 
+def has_surrogate(s):
+    return s is not None and any(0xD800 <= ord(ch) <= 0xDFFF for ch in s)
+
+
 def verdict(content_rules, enum, mixed, has_children, s):
+    if has_surrogate(s):
+        return UNSPEC       # not a sequence of Unicode scalar values: accept/reject is not compared (totality still is)
     vs = []
     for cr in content_rules:
         if cr == "nonEmptyContent":
